@@ -44,6 +44,7 @@ AMBIENT = {
 AMBIENT_PREFIX = ("random.", "numpy.random.", "secrets.")
 AMBIENT_ATTR = {"os.environ", "sys.argv", "sys.flags"}
 GLOBAL_SETTERS = {
+    "attrs.validators.set_disabled", "attr.validators.set_disabled", "attrs.set_run_validators", "attr.set_run_validators", "gc.disable", "gc.enable", "sys.setswitchinterval", "os.environ.update", "os.environ.setdefault",
     "numpy.seterr", "numpy.set_printoptions", "numpy.seterrcall", "warnings.simplefilter", "warnings.filterwarnings", "warnings.resetwarnings",
     "os.chdir", "os.umask", "os.putenv", "locale.setlocale", "sys.setrecursionlimit", "numpy.random.seed", "random.seed",
     "sys.settrace", "sys.setprofile", "decimal.setcontext", "signal.signal", "builtins.setattr@module",
